@@ -690,7 +690,7 @@ def structures_for_tier(ck):
         for s in s3:
             mask = rng.randrange(8)
             out.append((instantiate(s, [mask >> i & 1 for i in range(3)]), "random:2"))
-        nrand = {4: 320, 5: 260, 6: 260}
+        nrand = {4: 240, 5: 180, 6: 180}
     for n, cnt in sorted(nrand.items()):
         for _ in range(cnt):
             s = random_shape(rng, n, rng.choice([1, 2, 2, 3, 3]))
@@ -833,8 +833,15 @@ def run(ck):
         dpt, choice = depth(t), has_choice(t)
         # values: every falsy/truthy pattern for <= 2 parameters, a seeded pattern otherwise
         if n <= 2 and not mode.startswith("random"):
-            valued = [(vi, w, j > 0) for vi, v in enumerate(vectors)
-                      for j, w in enumerate(value_variants(rng, v, ALL_FALSY_KINDS))]
+            # the falsy/truthy patterns once per definedness pattern (valued subset), at one of its
+            # positional/keyword splits - the split adds no new definedness pattern
+            ncore = (1 << n) * (n + 1)
+            valued = []
+            for vi, v in enumerate(vectors):
+                mask, k = divmod(vi, n + 1)
+                with_variants = (k == mask % (n + 1)) if vi < ncore else (vi % 3 == 0)
+                for j, w in enumerate(value_variants(rng, v, ALL_FALSY_KINDS) if with_variants else [v]):
+                    valued.append((vi, w, j > 0))
         else:
             valued = [(vi, random_falsify(rng, v, ALL_FALSY_KINDS), False) for vi, v in enumerate(vectors)]
         for vi, (args, kw), variant in valued:
@@ -845,7 +852,9 @@ def run(ck):
                     continue
                 if not extra and mode == "core" and n >= 3 and vi % 4:
                     continue        # with checking off only counts and callbacks can differ
-                if not extra and variant and vi % 4:
+                if not extra and variant:
+                    continue
+                if not extra and mode == "core" and n == 2 and vi % 3:
                     continue
                 if any(v is not None and v >= KSTEP for v in args) or any(v is not None and v >= KSTEP for _, v in kw):
                     ck.count("parse_args:falsy-value")
@@ -1207,7 +1216,11 @@ def run(ck):
         "both alternating falsy/truthy patterns (9 falsy kinds), elsewhere a seeded 40%% of the defined values falsy; "
         "real clients repeat every vector (checking on) with a seeded half of the value ids falsy (7 kinds). "
         "Real clients: %d rendered WSDLs (anonymous/named wrapper type, sequence/all/choice) "
-        "x the same vector families x extra on/off, unwrap off via dict / factory object / keyword; rpc literal+"
+        "x the same vector families x extra on/off, unwrap off via dict / factory object / keyword; services "
+        "with 2-3 ports whose port types define a same-named operation over DIFFERENT structures (every port "
+        "called on one client, both orders, judged against its own structure); clients whose WSDL object comes "
+        "out of a shared ObjectCache (cachingpolicy=1) filled by a client with the opposite `unwrap` option "
+        "(both orders); rpc literal+"
         "encoded with 1-3 parts. distinct = distinct (structure, args, kwargs, extra); non-trivial = at least two "
         "parameters or a real client"
         % ("3 parameters: all 1466 shapes x all 8 markings x every valued subset x every split (checking on; a "
@@ -1215,7 +1228,7 @@ def run(ck):
            "4 parameters: all 2718 shapes without single-container chains x all 16 markings (one marking with the "
            "complete split space, the others seeded vectors), 5-6 parameters: 12000 seeded structures"
            if ck.tier == "thorough" else
-           "every 3-parameter shape (1466) once with a seeded marking and vector slice, 840 seeded 4-6 parameter "
+           "every 3-parameter shape (1466) once with a seeded marking and vector slice, 600 seeded 4-6 parameter "
            "structures",
            len(client_structs)))
     ck.exhaustive = False
@@ -1355,37 +1368,74 @@ def replay(ck, payload):
         print("structure:", c_tree(t))
         print("impl now:", drive_parse_args(argparser, defs, payload["args"], kw, payload["extra"]))
     elif kind in ("client", "client-unwrap"):
+        import shutil
+        import tempfile
+        import suds.cache
         t = tup(payload["tree"])
-        rec = make_recorder()
-        wsdl = sudsutil.doc_wsdl(wrapper_schema(t, payload.get("named", False)))
-        print("schema:", wrapper_schema(t, payload.get("named", False)))
-        if kind == "client":
-            c = sudsutil.client_from_wsdl(wsdl, transport=rec, extraArgumentErrors=payload.get("extra", True))
-            for a, k in ((payload.get("args"), payload.get("kw")), (payload.get("args2"), payload.get("kw2"))):
-                if a is None:
-                    continue
-                a = [pval(v) for v in a]
-                k = dict((pname(n), pval(v)) for n, v in k)
-                print("f(*%r, **%r) ->" % (a, k), call_client(c, rec, a, k))
-        else:
-            c = sudsutil.client_from_wsdl(wsdl, transport=rec, unwrap=False)
-            vals, style = dict(payload["values"]), payload.get("style", "dict")
-            if style == "object":
-                arg = c.factory.create("Wrapper")
-                for kk, vv in vals.items():
-                    setattr(arg, kk, vv)
-            elif style == "dict-reversed":
-                arg = dict(reversed(list(vals.items())))
+        named = payload.get("named", False)
+        scen = payload.get("scenario") or {}
+        port, wel, tmp = None, "Wrapper", None
+        print("scenario:", scen.get("what", "one client, one port, no cache"))
+        if scen.get("unwrap_off_arity"):
+            print("structure of the operation:", scen.get("structure"))
+        try:
+            if scen.get("type") == "multiport":
+                trees = [(tup(x), nm) for x, nm in zip(scen["trees"], scen["nameds"])]
+                wsdl = multiport_wsdl(trees)
+                port, wel = "port%d" % (scen["port"] + 1), "Wrapper%d" % (scen["port"] + 1)
+                if not scen.get("unwrap_off_arity"):
+                    t, named = trees[scen["port"]]
             else:
-                arg = vals
-            if style == "keyword-dict":
-                print("unwrap=False f(%s=%r) ->" % (client_param_name(c), arg),
-                      call_client(c, rec, [], {client_param_name(c): arg}))
+                wsdl = sudsutil.doc_wsdl(wrapper_schema(t, named)) if not scen.get("unwrap_off_arity") else None
+            if wsdl is None:
+                print("(arity call of an unwrap=False client; rebuild the client from the structure above)")
+                return 0
+
+            def build(unwrap):
+                rec = make_recorder()
+                if scen.get("type") == "cache":
+                    order = (scen["first_unwrap"], not scen["first_unwrap"])
+                    made = {}
+                    for u in order:
+                        r_ = make_recorder()
+                        made[u] = (sudsutil.client_from_wsdl(wsdl, transport=r_, unwrap=u, cachingpolicy=1,
+                                                             cache=suds.cache.ObjectCache(location=tmp, days=1)), r_)
+                    return made[unwrap]
+                return sudsutil.client_from_wsdl(wsdl, transport=rec, unwrap=unwrap), rec
+            if scen.get("type") == "cache":
+                tmp = tempfile.mkdtemp(prefix="verif-c08-cache-", dir="/var/tmp")
+            print("structure:", c_tree(t))
+            if kind == "client":
+                c, rec = build(True)
+                c.set_options(extraArgumentErrors=payload.get("extra", True))
+                for a, k in ((payload.get("args"), payload.get("kw")), (payload.get("args2"), payload.get("kw2"))):
+                    if a is None:
+                        continue
+                    a = [pval(v) for v in a]
+                    k = dict((pname(n), pval(v)) for n, v in k)
+                    print("f(*%r, **%r) ->" % (a, k), call_client(c, rec, a, k, port))
             else:
-                print("unwrap=False f(<%s %r>) ->" % (style, vals), call_client(c, rec, [arg], {}))
-            rec1 = make_recorder()
-            c1 = sudsutil.client_from_wsdl(wsdl, transport=rec1)
-            print("unwrap=True  f(**%r) ->" % (vals,), call_client(c1, rec1, [], vals))
+                c, rec = build(False)
+                vals = dict((kk, pval(vv)) for kk, vv in payload["values"].items())
+                style = payload.get("style", "dict")
+                if style == "object":
+                    arg = c.factory.create(wel)
+                    for kk, vv in vals.items():
+                        setattr(arg, kk, vv)
+                elif style == "dict-reversed":
+                    arg = dict(reversed(list(vals.items())))
+                else:
+                    arg = vals
+                if style == "keyword-dict":
+                    print("unwrap=False f(%s=%r) ->" % (client_param_name(c, port), arg),
+                          call_client(c, rec, [], {client_param_name(c, port): arg}, port))
+                else:
+                    print("unwrap=False f(<%s %r>) ->" % (style, vals), call_client(c, rec, [arg], {}, port))
+                c1, rec1 = build(True)
+                print("unwrap=True  f(**%r) ->" % (vals,), call_client(c1, rec1, [], vals, port))
+        finally:
+            if tmp:
+                shutil.rmtree(tmp, ignore_errors=True)
     elif kind == "rpc":
         rec = make_recorder()
         c = sudsutil.client_from_wsdl(rpc_wsdl(payload["n"], payload["encoded"]), transport=rec,
